@@ -646,9 +646,13 @@ Print Assumptions c14_bytes_depend_on_streams.
 (* The context reader of the correspondence run finds ip / sp by FIELD NAME in the context structures as format.rs declares them
    (layouts and field names regenerated on every run): today these are the 107th / 110th integer of CONTEXT_X86 (eip / esp), the
    38th / 26th of CONTEXT_AMD64 (rip / rsp), iregs[15] / iregs[13] of CONTEXT_ARM, pc / sp of both ARM64 contexts, epc / iregs[29]
-   of CONTEXT_MIPS; a reordered or resized field breaks this theorem (the extracted positions are numbers). *)
-Theorem c14_context_registers_by_name : forall arch, ctx_regs arch = ctx_regs_named arch.
-Proof. exact ctx_regs_by_name. Qed.
+   of CONTEXT_MIPS, srr0 / gpr[1] of CONTEXT_PPC and CONTEXT_PPC64, pc / g_r[14] of CONTEXT_SPARC; a reordered or resized field breaks
+   this theorem (the extracted positions are numbers).  The reader covers exactly the architectures MinidumpContext::read has an
+   arm for (arch_has_context, itself regenerated from context.rs: c14_platform_is_source). *)
+Theorem c14_context_registers_by_name :
+  (forall arch, ctx_regs arch = ctx_regs_named arch) /\
+  (forall arch, ctx_regs arch <> None <-> arch_has_context arch = true).
+Proof. split; [exact ctx_regs_by_name|exact ctx_regs_covers]. Qed.
 Print Assumptions c14_context_registers_by_name.
 
 (* Byte order: the same dump model written little- or big-endian is processed to the same record up to the CPU contexts (byte-order
